@@ -112,7 +112,13 @@ func wdString(wd gmars.WarriorData, err error) string {
 // once (so that the reported reason could depend on the order in which a table is walked).
 func erroneousText(t *rapid.T) string {
 	var sb strings.Builder
-	switch rapid.IntRange(0, 4).Draw(t, "errk") {
+	switch rapid.IntRange(0, 6).Draw(t, "errk") {
+	case 5: // every symbol is short enough, the FOR count that names one twice is not
+		n := rapid.SampledFrom([]int{2040, 2047, 1500}).Draw(t, "terms")
+		fmt.Fprintf(&sb, "a equ 1%s\n%s a+a%s\ndat 0\nrof\n", strings.Repeat("+1", n), rapid.SampledFrom([]string{"for", "i for", "l i for"}).Draw(t, "head"), rapid.SampledFrom([]string{"", "+a", "-a+1"}).Draw(t, "more"))
+	case 6: // the same in an operand and in an assert
+		n := rapid.SampledFrom([]int{2040, 2047, 1500}).Draw(t, "terms")
+		fmt.Fprintf(&sb, "a equ 1%s\n%s\n", strings.Repeat("+1", n), rapid.SampledFrom([]string{"dat a+a+a", ";assert a+a+a\ndat 0", "b equ a+a\nc equ b+a\ndat c"}).Draw(t, "use"))
 	case 0: // several undefined symbols
 		n := rapid.IntRange(2, 6).Draw(t, "nundef")
 		for i := 0; i < n; i++ {
